@@ -943,7 +943,14 @@ func (c *compiler) evalCallExpression(node *ast.CallExpression) (interface{}, er
 
 	res := rv.Call(args)
 	if len(res) > 0 {
-		if e, ok := res[len(res)-1].Interface().(error); ok {
+		last := res[len(res)-1]
+		isNil := false
+		switch last.Kind() {
+		case reflect.Ptr, reflect.Map, reflect.Slice, reflect.Func, reflect.Chan, reflect.Interface:
+			// a nil *MyError is no error, although boxed in an error interface it compares unequal to nil
+			isNil = last.IsNil()
+		}
+		if e, ok := last.Interface().(error); ok && !isNil {
 			return nil, fmt.Errorf("could not call %s function: %w", node.Function, e)
 		}
 		if node.ChainCallee != nil {
